@@ -1942,6 +1942,33 @@ func (m *Model) applyStream(c Call, o Obs) []Hit {
 	switch c.Op.Tgt {
 	case "plain":
 		doPull(o.Msgs)
+	case "ack-seek-ack":
+		// phases: 0 sent before the first ack went in, 1 between that ack and the
+		// Seek, 2 after the Seek, 3 after the second ack
+		var ph [4][]RecvMsg
+		for _, rm := range o.Msgs {
+			k := rm.Phase
+			if k > 3 {
+				k = 3
+			}
+			ph[k] = append(ph[k], rm)
+		}
+		ackOf := func(ms []RecvMsg) {
+			a := Call{Op: Op{K: "ack", Sub: c.Op.Sub}}
+			for _, rm := range ms {
+				a.AckIDs = append(a.AckIDs, rm.AckID)
+			}
+			if len(a.AckIDs) > 0 {
+				hits = append(hits, m.applyAck(a, so)...)
+			}
+		}
+		doPull(ph[0])
+		ackOf(ph[0])
+		doPull(ph[1])
+		hits = append(hits, m.applySeekT(Call{Op: Op{K: "seekT", Sub: c.Op.Sub, Tgt: "before-all"}, Time: c.Time}, so)...)
+		doPull(ph[2])
+		ackOf(append(append([]RecvMsg{}, ph[1]...), ph[2]...))
+		doPull(ph[3])
 	case "later-ack-mixed":
 		// the follow-up acknowledges the ids chosen before the session AND every
 		// message the stream had delivered when it went in
